@@ -1,0 +1,539 @@
+//go:build verif
+
+package v1
+
+// Contracts for govc (contract-based deductive verification; see /verif/DESIGN.md and /verif/CONTRACTS.md).
+// This file holds only comments and is compiled only with -tags verif.
+// Oracle: README.md of this package (the published format dapr.io/enc/v1).
+
+// ---- C01 (e): identifier tables -------------------------------------------------------------------------------
+// README: 0x01 = A256KW, 0x02 = A128CBC-NOPAD, 0x03 = A192CBC-NOPAD, 0x04 = A256CBC-NOPAD, 0x05 = RSA-OAEP-256;
+// ciphers 0x01 = AES-GCM, 0x02 = ChaCha20-Poly1305. Aliases: AES -> A256KW, RSA -> RSA-OAEP-256.
+
+//@ pure func kaName(id int) string = id == 1 ? "A256KW" : (id == 2 ? "A128CBC-NOPAD" : (id == 3 ? "A192CBC-NOPAD" : (id == 4 ? "A256CBC-NOPAD" : (id == 5 ? "RSA-OAEP-256" : ""))))
+//@ pure func kaCanon(a string) bool = a == "A256KW" || a == "A128CBC-NOPAD" || a == "A192CBC-NOPAD" || a == "A256CBC-NOPAD" || a == "RSA-OAEP-256"
+//@ pure func kaResolve(a string) string = a == "AES" ? "A256KW" : (a == "RSA" ? "RSA-OAEP-256" : a)
+//@ pure func kaID(a string) int = a == "A256KW" ? 1 : (a == "A128CBC-NOPAD" ? 2 : (a == "A192CBC-NOPAD" ? 3 : (a == "A256CBC-NOPAD" ? 4 : (a == "RSA-OAEP-256" ? 5 : 0))))
+//@ pure func cphName(id int) string = id == 1 ? "AES-GCM" : (id == 2 ? "CHACHA20-POLY1305" : "")
+//@ pure func cphID(c string) int = c == "AES-GCM" ? 1 : (c == "CHACHA20-POLY1305" ? 2 : 0)
+
+//@ func (KeyAlgorithm).Validate
+//@   tags C01 C07 C08
+//@   modifies nothing
+//@   ensures [C01.ka.validate.accept] result1 == nil <==> kaCanon(kaResolve(a))
+//@   ensures [C01.ka.validate.alias] result1 == nil ==> result == kaResolve(a)
+//@   ensures [C01.ka.validate.reject] result1 != nil ==> result == a
+
+//@ func (KeyAlgorithm).ID
+//@   tags C01 C07 C08
+//@   modifies nothing
+//@   ensures [C01.ka.id] result == kaID(kaResolve(a))
+//@   ensures [C01.ka.id.range] 0 <= result && result <= 5
+
+//@ func NewKeyAlgorithmFromID
+//@   tags C01 C07 C08
+//@   modifies nothing
+//@   ensures [C01.ka.fromid.accept] result1 == nil <==> (1 <= id && id <= 5)
+//@   ensures [C01.ka.fromid.name] result1 == nil ==> result == kaName(id)
+//@   ensures [C01.ka.fromid.inverse] result1 == nil ==> (kaCanon(result) && kaID(result) == id)
+//@   ensures [C01.ka.fromid.reject] result1 != nil ==> result == ""
+
+//@ func (Cipher).Validate
+//@   tags C01 C07 C08
+//@   modifies nothing
+//@   ensures [C01.cph.validate.accept] result1 == nil <==> (c == "AES-GCM" || c == "CHACHA20-POLY1305")
+//@   ensures [C01.cph.validate.same] result == c
+
+//@ func (Cipher).ID
+//@   tags C01 C07 C08
+//@   modifies nothing
+//@   ensures [C01.cph.id] result == cphID(c)
+
+//@ func NewCipherFromID
+//@   tags C01 C07 C08
+//@   modifies nothing
+//@   ensures [C01.cph.fromid.accept] result1 == nil <==> (id == 1 || id == 2)
+//@   ensures [C01.cph.fromid.name] result1 == nil ==> result == cphName(id)
+//@   ensures [C01.cph.fromid.inverse] result1 == nil ==> cphID(result) == id
+//@   ensures [C01.cph.fromid.reject] result1 != nil ==> result == ""
+
+// JSON (un)marshalling of the two identifier types: numeric ids, nothing else accepted (C07: never panics).
+
+//@ func (KeyAlgorithm).MarshalJSON
+//@   tags C01 C07 C08
+//@   modifies nothing
+//@   ensures result1 == nil
+
+//@ func (*KeyAlgorithm).UnmarshalJSON
+//@   tags C01 C07 C08
+//@   requires a != nil
+//@   modifies *a
+//@   ensures [C01.ka.json.value] result == nil ==> (kaCanon(*a) && 1 <= kaID(*a) && kaID(*a) <= 5)
+//@   ensures [C01.ka.json.reject] result != nil ==> *a == old(*a)
+
+//@ func (Cipher).MarshalJSON
+//@   tags C01 C07 C08
+//@   modifies nothing
+//@   ensures result1 == nil
+
+//@ func (*Cipher).UnmarshalJSON
+//@   tags C01 C07 C08
+//@   requires c != nil
+//@   modifies *c
+//@   ensures [C01.cph.json.value] result == nil ==> (*c == "AES-GCM" || *c == "CHACHA20-POLY1305")
+//@   ensures [C01.cph.json.reject] result != nil ==> *c == old(*c)
+
+// ---- Manifest.Validate -----------------------------------------------------------------------------------------
+
+//@ func (*Manifest).Validate
+//@   tags C01 C07 C08
+//@   requires m != nil
+//@   modifies m.KeyWrappingAlgorithm, m.Cipher
+//@   ensures [C01.manifest.accept] err == nil <==> (kaCanon(kaResolve(old(m.KeyWrappingAlgorithm))) && len(m.WFK) != 0
+//@        && (old(m.Cipher) == "AES-GCM" || old(m.Cipher) == "CHACHA20-POLY1305") && len(m.NoncePrefix) == 7)
+//@   ensures [C01.manifest.alias] err == nil ==> (m.KeyWrappingAlgorithm == kaResolve(old(m.KeyWrappingAlgorithm)) && m.Cipher == old(m.Cipher))
+//@   ensures [C01.manifest.np] err == nil ==> len(m.NoncePrefix) == NoncePrefixLength
+
+// ---- filekey.go ------------------------------------------------------------------------------------------------
+
+// C01 (b) README "Each segment is encrypted using a different 12-byte nonce: nonce_prefix (7 bytes) || i (4 bytes,
+// 32-bit unsigned big-endian) || last_segment (1 byte, 0x01 for the last segment, 0x00 otherwise)".
+// The big-endian digits are stated as the linear identity with 0 <= digit < 256 (unique representation).
+//@ func (fileKey).nonceForSegment
+//@   tags C01 C07 C08
+//@   requires 0 <= num && num <= 4294967295
+//@   modifies nothing
+//@   ensures [C01.nonce.len] len(result) == 12 && fresh(result)
+//@   ensures [C01.nonce.prefix] forall i :: 0 <= i && i < 7 && i < len(k.noncePrefix) ==> result[i] == k.noncePrefix[i]
+//@   ensures [C01.nonce.counter] 0 <= result[7] && result[7] < 256 && 0 <= result[8] && result[8] < 256 && 0 <= result[9] && result[9] < 256 && 0 <= result[10] && result[10] < 256
+//@        && 16777216 * result[7] + 65536 * result[8] + 256 * result[9] + result[10] == num
+//@   ensures [C01.nonce.last] result[11] == (last ? 1 : 0)
+
+// C01 (c) README: "mac-key = HKDF-SHA-256(ikm = file key, salt = empty, info = "header")",
+// "payload-key = HKDF-SHA-256(ikm = file key, salt = nonce prefix, info = "payload")" -- as data-flow facts over the
+// uninterpreted hkdfbyte (see /verif/libspec/encv1_libs.spec); byte sequences are identified by their codes bseq/sseq.
+//@ func (fileKey).deriveKey
+//@   tags C01 C07 C08
+//@   requires 0 <= size && size <= 8160
+//@   modifies nothing
+//@   ensures [C01.hkdf.ok] result1 == nil && len(result) == size && fresh(result)
+//@   ensures [C01.hkdf.bytes] forall i :: 0 <= i && i < size ==> result[i] == hkdfbyte(bseq(region(k.fileKey), k.fileKey.off, len(k.fileKey)), bseq(region(salt), salt.off, len(salt)), bseq(region(info), info.off, len(info)), i)
+
+//@ func importFileKey
+//@   tags C01 C07 C08
+//@   modifies nothing
+//@   ensures [C01.fk.fields] err == nil && fk.fileKey == fileKey && fk.noncePrefix == noncePrefix && fk.cipher == cipher
+//@   ensures [C01.fk.lens] len(fk.headerKey) == 32 && len(fk.payloadKey) == 32 && fresh(fk.headerKey) && fresh(fk.payloadKey)
+//@   ensures [C01.fk.headerkey] forall i :: 0 <= i && i < 32 ==> fk.headerKey[i] == hkdfbyte(bseq(region(fileKey), fileKey.off, len(fileKey)), 0, sseq("header", 6), i)
+//@   ensures [C01.fk.payloadkey] forall i :: 0 <= i && i < 32 ==> fk.payloadKey[i] == hkdfbyte(bseq(region(fileKey), fileKey.off, len(fileKey)), bseq(region(noncePrefix), noncePrefix.off, len(noncePrefix)), sseq("payload", 7), i)
+
+// C01 (c) "Cipher indicates the cipher used": AES-GCM for "AES-GCM" (id 1), ChaCha20-Poly1305 for id 2, keyed with payloadKey.
+//@ func (fileKey).getCipher
+//@   tags C01 C07 C08
+//@   modifies nothing
+//@   ensures [C01.cipher.ok] (len(k.payloadKey) == 32 && (k.cipher == "AES-GCM" || k.cipher == "CHACHA20-POLY1305")) ==> err == nil
+//@   ensures [C01.cipher.unsupported] !(k.cipher == "AES-GCM" || k.cipher == "CHACHA20-POLY1305") ==> (err != nil && aead == nil)
+//@   ensures [C01.cipher.shape] err == nil ==> (aead != nil && aead.overhead == 16 && aead.noncesize == 12)
+//@   ensures err != nil ==> aead == nil
+
+// C01 (d) README Header/MAC: "message = first 2 lines of the header, including the trailing newline character":
+// "dapr.io/enc/v1" LF manifest LF.
+//@ func (fileKey).headerMessage
+//@   tags C01 C07 C08
+//@   modifies nothing
+//@   ensures [C01.hmsg.len] len(result) == 14 + 1 + len(manifest) + 1 && fresh(result)
+//@   ensures [C01.hmsg.scheme] forall i :: 0 <= i && i < 14 ==> result[i] == SchemeName[i]
+//@   ensures [C01.hmsg.lf1] result[14] == '\n'
+//@   ensures [C01.hmsg.manifest] forall i :: 0 <= i && i < len(manifest) ==> result[15 + i] == manifest[i]
+//@   ensures [C01.hmsg.lf2] result[15 + len(manifest)] == '\n'
+
+// "MAC = HMAC-SHA-256(key = mac-key, message)": the result is the digest of a keyed hash created with sha256.New and
+// exactly the bytes of k.headerKey that has absorbed exactly msg (ghost hh: the hash object; hash.Hash model of
+// /verif/libspec/hmac_binary.spec).
+//@ func (fileKey).computeHeaderSignature
+//@   tags C01 C07 C08
+//@   ghost hh iface
+//@   modifies nothing
+//@   ensures [C01.mac.ok] result1 == nil && fresh(result) && len(result) > 0
+//@   at call New#0 ghost hh = res0
+//@   at return assert [C01.mac.key] hh.hkeylen == len(k.headerKey) && (forall j :: 0 <= j && j < len(k.headerKey) ==> hh.hkey[j] == k.headerKey[j])
+//@   at return assert [C01.mac.msg] hh.wpos == len(msg) && (forall j :: 0 <= j && j < len(msg) ==> hh.wlog[j] == msg[j])
+//@   at return assert [C01.mac.digest] len(result) == hh.hsize && (forall j :: 0 <= j && j < hh.hsize ==> result[j] == digestbyte(hh.hkey, hh.hkeylen, hh.wlog, hh.wpos, j))
+
+// README Header: three LF-terminated lines: scheme name, manifest, base64 (RFC 4648 section 4, padded) of the MAC; the MAC is
+// computed over the first two lines including their trailing LF. The header must fit one segment (64 KiB).
+// mac below is the value returned by the single call of computeHeaderSignature, whose argument is asserted to be the
+// value returned by the single call of headerMessage(manifest).
+//@ func (fileKey).SignHeader
+//@   tags C01 C07 C08
+//@   ghost mac [int]int
+//@   ghost macoff int
+//@   ghost maclen int
+//@   modifies nothing
+//@   at call computeHeaderSignature#0 ghost mac = region(res0)
+//@   at call computeHeaderSignature#0 ghost macoff = res0.off
+//@   at call computeHeaderSignature#0 ghost maclen = len(res0)
+//@   ensures [C01.header.reject] result1 != nil ==> result == nil
+//@   ensures [C01.header.size] result1 == nil ==> (fresh(result) && 17 + len(manifest) <= len(result) && len(result) <= SegmentSize)
+//@   ensures [C01.header.line1] result1 == nil ==> ((forall i :: 0 <= i && i < 14 ==> result[i] == SchemeName[i]) && result[14] == '\n')
+//@   ensures [C01.header.line2] result1 == nil ==> ((forall i :: 0 <= i && i < len(manifest) ==> result[15 + i] == manifest[i]) && result[15 + len(manifest)] == '\n')
+//@   ensures [C01.header.lf3] result1 == nil ==> result[len(result) - 1] == '\n'
+//@   ensures [C01.header.accept] result1 == nil <==> 16 + len(manifest) + (maclen + 2) / 3 * 4 + 1 <= 65536
+//@   ensures [C01.header.len] result1 == nil ==> len(result) == 16 + len(manifest) + (maclen + 2) / 3 * 4 + 1
+//@   ensures [C01.header.line3] result1 == nil ==> (forall i :: 0 <= i && i < (maclen + 2) / 3 * 4 ==> result[16 + len(manifest) + i] == b64char(mac, macoff, maclen, i))
+//@   at before call headerMessage#0 assert [C01.header.msgarg] arg1 == manifest
+//@   at before call computeHeaderSignature#0 assert [C01.header.macmsg] arg1 == call_headerMessage_0_result
+
+// C01 (d) / C02 (1): the MAC is recomputed over headerMessage(manifest) -- the exact manifest bytes of the header, not a
+// re-encoding -- and compared in constant time with the decoded third line; nil is returned only when they are equal.
+//@ func (fileKey).VerifyHeaderSignature
+//@   tags C01 C02 C07 C08
+//@   modifies nothing
+//@   ghost decerr iface
+//@   ghost cmp int
+//@   at call Decode#0 ghost decerr = res1
+//@   at call ConstantTimeCompare#0 ghost cmp = res0
+//@   at return assert [C02.hdr.nil] result == nil ==> (decerr == nil && cmp == 1)
+//@   at return assert [C02.hdr.mismatch] (decerr == nil && cmp != 1) ==> result == ErrDecryptionSignature
+//@   at return assert [C02.hdr.badb64] decerr != nil ==> result != nil
+//@   at before call Decode#0 assert [C02.hdr.decodearg] arg2.base == macB64.base && arg2.off == macB64.off && len(arg2) == len(macB64)
+//@   at before call headerMessage#0 assert [C02.hdr.msgarg] arg1.base == manifest.base && arg1.off == manifest.off && len(arg1) == len(manifest)
+//@   at before call computeHeaderSignature#0 assert [C02.hdr.macmsg] arg1.base == call_headerMessage_0_result.base && arg1.off == call_headerMessage_0_result.off && len(arg1) == len(call_headerMessage_0_result)
+//@   at before call ConstantTimeCompare#0 assert [C02.hdr.cmpargs] arg0.base == call_computeHeaderSignature_0_result.base && arg0.off == call_computeHeaderSignature_0_result.off && len(arg0) == len(call_computeHeaderSignature_0_result)
+//@        && arg1.base == mac.base && arg1.off == mac.off && len(arg1) == call_Decode_0_n
+
+// ---- segments (README "Segments": encrypted_chunk || tag, 16-byte tag, nonce = prefix || BE32(i) || last) ------
+// Type of both EncryptSegment and DecryptSegment as seen by processSegments: the segment is processed in place
+// (data's own backing array up to its capacity is scratch), output goes to out only, nothing else is written: in
+// particular data is not retained anywhere (C08: the pooled buffer does not escape), no package-level state is written.
+//@ func functype github.com/dapr/kit/schemes/enc/v1.processSegmentFn
+//@   skip
+//@   requires out != nil && len(data) > 0
+//@   modifies data[0:cap(data)], out.wlog, out.wpos
+
+// C01 (b): exactly one Seal, with nonce nonceForSegment(num, last), plaintext data, no additional data, sealing in
+// place (dst = data[:0]); exactly the l+16 bytes Seal returned are written to out in one Write.
+//@ func (fileKey).EncryptSegment
+//@   tags C01 C07 C08
+//@   ghost ct [int]int
+//@   ghost ctoff int
+//@   requires out != nil
+//@   modifies data[0:cap(data)], out.wlog, out.wpos
+//@   ensures [C01.seg.empty] len(data) == 0 ==> (result != nil && out.wpos == old(out.wpos))
+//@   ensures [C01.seg.written] result == nil ==> out.wpos == old(out.wpos) + len(data) + SegmentOverhead
+//@   at before call nonceForSegment#0 assert [C01.seg.noncearg] arg1 == num && arg2 == last
+//@   at before call Seal#0 assert [C01.seg.sealargs] arg1.base == old(data).base && arg1.off == old(data).off && len(arg1) == 0
+//@        && arg2.base == call_nonceForSegment_0_result.base && arg2.off == call_nonceForSegment_0_result.off && len(arg2) == 12
+//@        && arg3.base == old(data).base && arg3.off == old(data).off && len(arg3) == len(old(data)) && len(arg4) == 0
+//@   at call Seal#0 ghost ct = region(call_Seal_0_result)
+//@   at call Seal#0 ghost ctoff = call_Seal_0_result.off
+//@   at return assert [C01.seg.bytes] result == nil ==> (forall j :: 0 <= j && j < len(old(data)) + 16 ==> out.wlog[old(out.wpos) + j] == ct[ctoff + j])
+
+// C01 (b) / C02 (2): exactly one Open with nonce nonceForSegment(num, last) over the whole segment, no additional data;
+// out.Write is reached only when Open returned no error and writes exactly the l-16 bytes Open returned; when Open
+// fails the result is ErrDecryptionFailed and nothing is written.
+//@ func (fileKey).DecryptSegment
+//@   tags C01 C02 C07 C08
+//@   ghost pt [int]int
+//@   ghost ptoff int
+//@   ghost openerr iface
+//@   ghost opened bool
+//@   requires out != nil
+//@   modifies data[0:cap(data)], out.wlog, out.wpos
+//@   ensures [C02.seg.empty] len(data) == 0 ==> (result != nil && out.wpos == old(out.wpos))
+//@   ensures [C02.seg.written] result == nil ==> (len(data) >= SegmentOverhead && out.wpos == old(out.wpos) + len(data) - SegmentOverhead)
+//@   ensures [C02.seg.log] forall j :: 0 <= j && j < old(out.wpos) ==> out.wlog[j] == old(out.wlog[j])
+//@   at before call nonceForSegment#0 assert [C01.dseg.noncearg] arg1 == num && arg2 == last
+//@   at before call Open#0 assert [C01.dseg.openargs] arg1.base == old(data).base && arg1.off == old(data).off && len(arg1) == 0
+//@        && arg2.base == call_nonceForSegment_0_result.base && arg2.off == call_nonceForSegment_0_result.off && len(arg2) == 12
+//@        && arg3.base == old(data).base && arg3.off == old(data).off && len(arg3) == len(old(data)) && len(arg4) == 0
+//@   at call getCipher#0 ghost opened = false
+//@   at call Open#0 ghost opened = true
+//@   at call Open#0 ghost openerr = call_Open_0_result1
+//@   at call Open#0 ghost pt = region(call_Open_0_result)
+//@   at call Open#0 ghost ptoff = call_Open_0_result.off
+//@   at before call Write#0 assert [C02.seg.tagfirst] opened && openerr == nil
+//@   at return assert [C02.seg.failed] (len(old(data)) > 0 && opened && openerr != nil) ==> (result == ErrDecryptionFailed && out.wpos == old(out.wpos))
+//@   at return assert [C02.seg.bytes] result == nil ==> (opened && openerr == nil && (forall j :: 0 <= j && j < len(old(data)) - 16 ==> out.wlog[old(out.wpos) + j] == pt[ptoff + j]))
+
+// README Key: "The key must be generated as 32 byte of output from a CSPRNG (such as Go's crypto/rand.Reader)";
+// Manifest: NoncePrefix "Random sequence of 7 bytes generated by a CSPRNG". 39 consecutive bytes of rand.Reader.
+//@ func newFileKey
+//@   tags C01 C07 C08
+//@   requires rand.Reader != nil
+//@   modifies rand.Reader.pos
+//@   ensures [C01.newfk.key] result1 == nil ==> (len(result.fileKey) == 32 && fresh(result.fileKey)
+//@        && (forall i :: 0 <= i && i < 32 ==> result.fileKey[i] == rand.Reader.data[old(rand.Reader.pos) + i]))
+//@   ensures [C01.newfk.np] result1 == nil ==> (len(result.noncePrefix) == NoncePrefixLength
+//@        && (forall i :: 0 <= i && i < 7 ==> result.noncePrefix[i] == rand.Reader.data[old(rand.Reader.pos) + 32 + i]))
+//@   ensures [C01.newfk.derived] result1 == nil ==> (result.cipher == cipher && len(result.headerKey) == 32 && len(result.payloadKey) == 32)
+
+//@ func (fileKey).GetFileKey
+//@   tags C01 C07 C08
+//@   modifies nothing
+//@   ensures result == k.fileKey
+
+//@ func (fileKey).GetNoncePrefix
+//@   tags C01 C07 C08
+//@   modifies nothing
+//@   ensures result == k.noncePrefix
+
+// ---- scheme.go -------------------------------------------------------------------------------------------------
+
+// The stream either takes all of b or is closed with an error (io.Pipe model: /verif/libspec/encv1_libs.spec).
+//@ func writeOrClosePipe
+//@   tags C01 C02 C07 C08
+//@   requires w != nil
+//@   modifies w.pn, w.cstate, w.cerr
+//@   ensures [C01.wocp.ok] result ==> (w.pn == old(w.pn) + len(b) && w.cstate == old(w.cstate) && w.cerr == old(w.cerr))
+//@   ensures [C02.wocp.closed] (!result && old(w.cstate) == 0) ==> (w.cstate == 2 && w.cerr != nil)
+//@   ensures [C02.wocp.sticky] old(w.cstate) != 0 ==> (!result && w.cstate == old(w.cstate) && w.cerr == old(w.cerr))
+
+// BufPool.New: the New half of the pool's element invariant (every element is a non-nil *[]byte of SegmentSize+SegmentOverhead+1
+// bytes). The Put half: the two deferred closures hand back the very pointer they obtained, whose slice header is never
+// assigned ([C08.pool.elem] below). The invariant is assumed at the two Get calls (at call Get#0 assume ...); BufPool is an
+// exported variable, so code outside this package could break it.
+//@ func init$1
+//@   tags C07 C08
+//@   modifies nothing
+//@   ensures [C08.pool.new] typeis(result, "*[]byte") && fresh(result) && deref(result, "[]byte") != nil && fresh(deref(result, "[]byte")) && len(deref(result, "[]byte")) == SegmentSize + SegmentOverhead + 1
+
+// The deferred func(){ BufPool.Put(buf) } of processSegments: hands the pooled buffer back.
+//@ func processSegments$1
+//@   tags C08
+//@   requires buf != nil
+//@   requires forall b :: released[b] ==> allocated(b)
+//@   ensures forall b :: released[b] ==> allocated(b)
+//@   requires [C08.pool.elem] *buf != nil && len(*buf) == 65553 && allocated(*buf)
+//@   modifies released
+//@   ensures *buf != nil ==> released[(*buf).base]
+//@   ensures forall b :: b != (*buf).base ==> released[b] == old(released[b])
+
+// C01 (a) chunking independence / C02 (3-4) close discipline of the segment loop, against the abstract io.Reader of
+// /verif/libspec/io.spec (any sequence of read sizes, zero-length reads, data together with EOF, errors at any point) and the
+// abstract processSegmentFn above. S = segmentSize (65536 when encrypting, 65552 when decrypting). pos0 = in.pos at entry.
+// Ghost record of the calls of processFn (k = 0, 1, ...): cnum[k], clast[k] the arguments num and last, coff[k] the offset in
+// in.data of the first byte handed over, clen[k] the number of bytes; ncall calls were made, the first nacc of them returned nil.
+// base = offset of the first byte not yet handed over (no multiplication by S: base advances by the length of each segment).
+//   [C01.split.*]  on a clean close every byte the source delivered was handed over exactly once, in order, in segments
+//                  numbered 0,1,2,... of exactly S bytes except the last one, which is non-empty, not longer than S and the
+//                  only one flagged last; nothing is handed over for an empty source
+//   [C01.wrap]     the 32-bit segment counter never wraps
+//   [C02.final]    clean close only after a segment flagged last was accepted  -- KNOWN FINDING: fails for the empty stream
+//   [C02.final.only] ... and the empty stream (no byte delivered, no segment processed) is the only other way to a clean close
+//   [C02.srcerr]   a non-EOF error of the source closes the pipe with exactly that error
+//   [C02.closed]   every return leaves the pipe closed; every close but the clean one is CloseWithError(non-nil)
+//   [C08.*]        the pooled buffer is owned (not released) whenever it is read, written or handed to processFn, and is
+//                  handed back exactly at return; no package-level state is written (frame)
+//@ func processSegments
+//@   tags C01 C02 C07 C08
+//@   ghost nacc int
+//@   ghost ncall int
+//@   ghost base int
+//@   ghost cnum [int]int
+//@   ghost coff [int]int
+//@   ghost clen [int]int
+//@   ghost clast [int]bool
+//@   ghost srcerr iface
+//@   ghost iseof bool
+//@   requires in != nil && out != nil && processFn != nil && segmentSize >= 1 && segmentSize <= 65552
+//@   requires 0 <= in.pos && in.pos <= in.total && out.cstate == 0
+//@   requires [C08.released.alloc] forall b :: released[b] ==> allocated(b)
+//@   modifies in.pos, out.cstate, out.cerr, wlog, wpos, released
+//@   ensures [C08.released.alloc] forall b :: released[b] ==> allocated(b)
+//@   at call Get#0 assume typeis(res0, "*[]byte") && deref(res0, "[]byte") != nil && len(deref(res0, "[]byte")) == 65553
+//@   at call Get#0 ghost nacc = 0
+//@   at call Get#0 ghost ncall = 0
+//@   at call Get#0 ghost base = in.pos
+//@   at call Get#0 ghost srcerr = err
+//@   at call Get#0 ghost iseof = false
+//@   at before call Read#0 assert [C08.own.read] !released[(*buf).base]
+//@   at call Read#0 ghost srcerr = res1
+//@   at call Is#0 ghost iseof = res0
+//@   at before call processSegmentFn#0 assert [C08.own.process] !released[(*buf).base]
+//@   at before call processSegmentFn#0 assert [C01.split.args] arg1.base == (*buf).base && arg1.off == (*buf).off && len(arg1) == n && arg2 == segment && arg3 == done
+//@   at before call processSegmentFn#0 assert [C01.split.data] n > 0 && n <= segmentSize && (forall k :: 0 <= k && k < n ==> (*buf)[k] == in.data[base + k])
+//@   at before call processSegmentFn#0 assert [C01.split.lastflag] (done ==> (iseof && in.pos == base + n)) && (!done ==> n == segmentSize)
+//@   at before call processSegmentFn#0 ghost cnum = update(cnum, ncall, segment)
+//@   at before call processSegmentFn#0 ghost coff = update(coff, ncall, base)
+//@   at before call processSegmentFn#0 ghost clen = update(clen, ncall, n)
+//@   at before call processSegmentFn#0 ghost clast = update(clast, ncall, done)
+//@   at before call processSegmentFn#0 ghost ncall = ncall + 1
+//@   at call processSegmentFn#0 ghost nacc = (res0 == nil ? nacc + 1 : nacc)
+//@   at call processSegmentFn#0 ghost base = (res0 == nil ? base + n : base)
+//@   at return assert [C08.pool.returned] released[(*buf).base]
+//@   ensures [C02.closed] out.cstate == 1 || (out.cstate == 2 && out.cerr != nil)
+//@   ensures [C02.srcerr] (srcerr != nil && !iseof) ==> (out.cstate == 2 && out.cerr == srcerr)
+//@   ensures [C02.final] out.cstate == 1 ==> (nacc > 0 && clast[nacc - 1])
+//@   ensures [C02.final.only] out.cstate == 1 ==> ((nacc > 0 && clast[nacc - 1]) || (nacc == 0 && ncall == 0 && iseof && in.pos == old(in.pos)))
+//@   ensures [C02.accepted] 0 <= nacc && nacc <= ncall && ncall <= nacc + 1 && (out.cstate == 1 ==> ncall == nacc)
+//@   ensures [C01.split.num] forall i :: 0 <= i && i < ncall ==> cnum[i] == i
+//@   ensures [C01.wrap] ncall <= 4294967296
+//@   ensures [C01.split.off] forall i :: 0 <= i && i < ncall ==> coff[i] == (i == 0 ? old(in.pos) : coff[i - 1] + segmentSize)
+//@   ensures [C01.split.full] forall i :: 0 <= i && i < ncall - 1 ==> (clen[i] == segmentSize && !clast[i])
+//@   ensures [C01.split.last] ncall > 0 ==> (0 < clen[ncall - 1] && clen[ncall - 1] <= segmentSize && (clast[ncall - 1] || clen[ncall - 1] == segmentSize))
+//@   ensures [C01.split.all] out.cstate == 1 ==> (iseof && in.pos == base && base == (ncall == 0 ? old(in.pos) : coff[ncall - 1] + clen[ncall - 1]))
+//@   ensures [C01.split.empty] (out.cstate == 1 && in.pos == old(in.pos)) ==> ncall == 0
+//@   ensures [C01.split.whole] (out.cstate == 1 && srcerr == io.EOF) ==> in.pos == in.total
+//@   replay template encv1segments
+//@   replay val S = segmentSize
+//@   replay val pos0 = in.pos
+//@   replay val total = in.total
+//@   replay val rn = call_Read_0_n
+//@   replay val reof = call_Read_0_err == io.EOF
+//@   replay val rnil = call_Read_0_err == nil
+//@   loop 0 invariant err == nil && out.cstate == 0 && old(in.pos) <= base && in.pos <= in.total
+//@   loop 0 invariant buf != nil && len(*buf) == 65553 && fresh(*buf) && !released[(*buf).base]
+//@   loop 0 invariant 0 <= nacc && ncall == nacc && ncall <= 4294967296
+//@   loop 0 invariant [C02.nowrap] !done ==> (segment == ncall && ncall <= 4294967295)
+//@   loop 0 invariant in.pos == base + (hasCarryover ? 1 : 0) && (hasCarryover ==> (!done && carryover == in.data[base]))
+//@   loop 0 invariant (srcerr != nil ==> iseof) && (srcerr == io.EOF ==> in.pos == in.total) && (ncall > 0 ==> base > old(in.pos))
+//@   loop 0 invariant done ==> (nacc > 0 && clast[nacc - 1] && iseof)
+//@   loop 0 invariant base == (ncall == 0 ? old(in.pos) : coff[ncall - 1] + clen[ncall - 1])
+//@   loop 0 invariant forall i :: 0 <= i && i < ncall ==> cnum[i] == i
+//@   loop 0 invariant forall i :: 0 <= i && i < ncall ==> coff[i] == (i == 0 ? old(in.pos) : coff[i - 1] + segmentSize)
+//@   loop 0 invariant forall i :: 0 <= i && i < ncall - 1 ==> (clen[i] == segmentSize && !clast[i])
+//@   loop 0 invariant ncall > 0 ==> (0 < clen[ncall - 1] && clen[ncall - 1] <= segmentSize && (done ? clast[ncall - 1] : (clen[ncall - 1] == segmentSize && !clast[ncall - 1])))
+//@   loop 1 invariant 0 <= n && n <= segmentSize + 1 && !hasCarryover && in.pos == base + n && in.pos <= in.total && out.cstate == 0
+//@   loop 1 invariant buf != nil && len(*buf) == 65553 && fresh(*buf) && !released[(*buf).base]
+//@   loop 1 invariant forall k :: 0 <= k && k < n ==> (*buf)[k] == in.data[base + k]
+//@   loop 1 invariant (err != nil ==> err == srcerr) && (err == nil ==> (srcerr == nil || iseof)) && (srcerr == io.EOF ==> in.pos == in.total)
+
+// The deferred func(){ BufPool.Put(buf) } of readHeader.
+//@ func readHeader$1
+//@   tags C08
+//@   requires buf != nil
+//@   requires forall b :: released[b] ==> allocated(b)
+//@   ensures forall b :: released[b] ==> allocated(b)
+//@   requires [C08.pool.elem] *buf != nil && len(*buf) == 65553 && allocated(*buf)
+//@   modifies released
+//@   ensures *buf != nil ==> released[(*buf).base]
+//@   ensures forall b :: b != (*buf).base ==> released[b] == old(released[b])
+
+// README Header: "3 items, each terminated by a line feed": scheme name, manifest, base64 MAC; the binary payload begins
+// immediately after the 3rd newline. src = the reader *in at entry, an abstract io.Reader (any chunking).
+//   [C01.hdr.*]  err == nil ==> the source content at its entry position is  "dapr.io/enc/v1" LF manifest LF mac LF  with non-empty
+//                manifest and mac free of LF, and manifest / mac hold exactly those bytes
+//   [C02.srcerr] a non-EOF error of the source is never swallowed  -- DEFECT: the loop invariant carrying it (a header is never
+//                completed by a read that also reported a non-EOF error) is not preserved by the iteration that reads the last
+//                header bytes together with such an error
+//   [C08.own]    the results are not memory that was handed back to BufPool  -- DEFECT: fails at the final return
+//@ func readHeader
+//@   tags C01 C02 C07 C08
+//@   ghost srcerr iface
+//@   requires in != nil && *in != nil && 0 <= (*in).pos && (*in).pos <= (*in).total
+//@   requires [C08.released.alloc] forall b :: released[b] ==> allocated(b)
+//@   modifies *in, pos, released
+//@   ensures [C08.released.alloc] forall b :: released[b] ==> allocated(b)
+//@   at call Get#0 assume typeis(res0, "*[]byte") && deref(res0, "[]byte") != nil && len(deref(res0, "[]byte")) == 65553
+//@   at call Get#0 ghost srcerr = err
+//@   at before call Read#0 assert [C08.own.read] !released[(*buf).base]
+//@   at call Read#0 ghost srcerr = res1
+//@   ensures [C01.hdr.fail] err != nil ==> (manifest == nil && mac == nil)
+//@   ensures [C01.hdr.nonempty] err == nil ==> (len(manifest) > 0 && len(mac) > 0)
+//@   ensures [C01.hdr.line1] err == nil ==> ((forall j :: 0 <= j && j < 14 ==> old(*in).data[old((*in).pos) + j] == SchemeName[j]) && old(*in).data[old((*in).pos) + 14] == '\n')
+//@   ensures [C01.hdr.line2] err == nil ==> (forall j :: 0 <= j && j < len(manifest) ==> manifest[j] == old(*in).data[old((*in).pos) + 15 + j])
+//@   ensures [C01.hdr.line2.nolf] err == nil ==> (forall j :: 0 <= j && j < len(manifest) ==> manifest[j] != '\n')
+//@   ensures [C01.hdr.line2.lf] err == nil ==> old(*in).data[old((*in).pos) + 15 + len(manifest)] == '\n'
+//@   ensures [C01.hdr.line3] err == nil ==> (forall j :: 0 <= j && j < len(mac) ==> mac[j] == old(*in).data[old((*in).pos) + 16 + len(manifest) + j])
+//@   ensures [C01.hdr.line3.nolf] err == nil ==> (forall j :: 0 <= j && j < len(mac) ==> mac[j] != '\n')
+//@   ensures [C01.hdr.line3.lf] err == nil ==> old(*in).data[old((*in).pos) + 16 + len(manifest) + len(mac)] == '\n'
+//@   ensures [C01.hdr.rest.same] (err == nil && *in == old(*in)) ==> (*in).pos == old((*in).pos) + 17 + len(manifest) + len(mac)
+//@   ensures [C01.hdr.rest.valid] err == nil ==> (*in != nil && 0 <= (*in).pos && (*in).pos <= (*in).total)
+//@   ensures [C02.srcerr] (srcerr != nil && srcerr != io.EOF) ==> err != nil
+//@   ensures [C08.own] err == nil ==> (!released[manifest.base] && !released[mac.base])
+//@   replay template encv1header
+//@   replay val rn = call_Read_0_n
+//@   replay val reof = call_Read_0_err == io.EOF
+//@   replay val rnil = call_Read_0_err == nil
+//@   loop 0 invariant 0 <= n && n <= 65536 && 0 <= newlines && newlines <= 3 && 0 <= lastNewline && lastNewline <= n
+//@   loop 0 invariant *in == old(*in) && (*in).pos == old((*in).pos) + n && (*in).pos <= (*in).total && err == srcerr
+//@   loop 0 invariant [C02.srcerr] (srcerr != nil && srcerr != io.EOF) ==> newlines < 3
+//@   loop 0 invariant buf != nil && len(*buf) == 65553 && fresh(*buf) && !released[(*buf).base]
+//@   loop 0 invariant forall k :: 0 <= k && k < n ==> (*buf)[k] == (*in).data[old((*in).pos) + k]
+//@   loop 0 invariant newlines == 0 ==> (lastNewline == 0 && len(manifest) == 0 && len(mac) == 0)
+//@   loop 0 invariant newlines >= 1 ==> ((forall j :: 0 <= j && j < 14 ==> (*buf)[j] == SchemeName[j]) && (*buf)[14] == '\n')
+//@   loop 0 invariant newlines == 1 ==> (lastNewline == 15 && len(manifest) == 0 && len(mac) == 0)
+//@   loop 0 invariant newlines >= 2 ==> (len(manifest) > 0 && manifest.base == (*buf).base && manifest.off == (*buf).off + 15 && (*buf)[15 + len(manifest)] == '\n'
+//@        && (forall j :: 0 <= j && j < len(manifest) ==> (*buf)[15 + j] != '\n'))
+//@   loop 0 invariant newlines == 2 ==> (lastNewline == 16 + len(manifest) && len(mac) == 0)
+//@   loop 0 invariant newlines == 3 ==> (len(mac) > 0 && mac.base == (*buf).base && mac.off == (*buf).off + 16 + len(manifest) && lastNewline == 17 + len(manifest) + len(mac)
+//@        && (*buf)[16 + len(manifest) + len(mac)] == '\n' && (forall j :: 0 <= j && j < len(mac) ==> (*buf)[16 + len(manifest) + j] != '\n'))
+//@   loop 0 invariant newlines < 3 ==> (forall j :: lastNewline <= j && j < n ==> (*buf)[j] != '\n')
+//@   loop 1 invariant n <= i && i <= n + nn && n + nn <= 65536 && 0 <= newlines && newlines <= 3 && 0 <= lastNewline && lastNewline <= i
+//@   loop 1 invariant buf != nil && len(*buf) == 65553 && fresh(*buf) && !released[(*buf).base]
+//@   loop 1 invariant forall k :: 0 <= k && k < n + nn ==> (*buf)[k] == (*in).data[old((*in).pos) + k]
+//@   loop 1 invariant newlines == 0 ==> (lastNewline == 0 && len(manifest) == 0 && len(mac) == 0)
+//@   loop 1 invariant newlines >= 1 ==> ((forall j :: 0 <= j && j < 14 ==> (*buf)[j] == SchemeName[j]) && (*buf)[14] == '\n')
+//@   loop 1 invariant newlines == 1 ==> (lastNewline == 15 && len(manifest) == 0 && len(mac) == 0)
+//@   loop 1 invariant newlines >= 2 ==> (len(manifest) > 0 && manifest.base == (*buf).base && manifest.off == (*buf).off + 15 && (*buf)[15 + len(manifest)] == '\n'
+//@        && (forall j :: 0 <= j && j < len(manifest) ==> (*buf)[15 + j] != '\n'))
+//@   loop 1 invariant newlines == 2 ==> (lastNewline == 16 + len(manifest) && len(mac) == 0)
+//@   loop 1 invariant newlines == 3 ==> (len(mac) > 0 && mac.base == (*buf).base && mac.off == (*buf).off + 16 + len(manifest) && lastNewline == 17 + len(manifest) + len(mac)
+//@        && (*buf)[16 + len(manifest) + len(mac)] == '\n' && (forall j :: 0 <= j && j < len(mac) ==> (*buf)[16 + len(manifest) + j] != '\n'))
+//@   loop 1 invariant newlines < 3 ==> (forall j :: lastNewline <= j && j < i ==> (*buf)[j] != '\n')
+
+// ---- Encrypt / Decrypt up to the go statement ------------------------------------------------------------------
+// The caller-supplied key (un)wrapping callbacks: assumed to leave all memory reachable by Encrypt / Decrypt alone.
+//@ func functype github.com/dapr/kit/schemes/enc/v1.WrapKeyFn
+//@   skip
+//@   modifies nothing
+//@ func functype github.com/dapr/kit/schemes/enc/v1.UnwrapKeyFn
+//@   skip
+//@   modifies nothing
+
+// C01 (f) README Manifest.KeyName / EncryptOptions: the manifest's key name is "" with OmitKeyName, else DecryptionKeyName if
+// set, else KeyName; the file key handed to WrapKeyFn is the fresh random key; the manifest carries the validated algorithm,
+// the wrapped key, the cipher and the nonce prefix; the header is SignHeader(manifest); the pipe is open when the producer starts.
+//@ func Encrypt
+//@   tags C01 C07 C08
+//@   requires rand.Reader != nil
+//@   modifies rand.Reader.pos
+//@   ensures [C01.enc.result] (result1 == nil ==> result != nil) && (result1 != nil ==> result == nil)
+//@   ensures [C01.enc.options] (in == nil || opts.WrapKeyFn == nil || opts.KeyName == "" || opts.Algorithm == "" || !kaCanon(kaResolve(opts.Algorithm))) ==> result1 != nil
+//@   at before call WrapKeyFn#0 assert [C01.enc.wrapargs] arg0 == call_newFileKey_0_result.fileKey && len(arg0) == 32 && arg1 == kaResolve(opts.Algorithm) && kaCanon(arg1) && arg2 == opts.KeyName && len(arg3) == 0
+//@   at before call Marshal#0 assert [C01.enc.keyname] deref(arg0, "github.com/dapr/kit/schemes/enc/v1.Manifest").KeyName == (opts.OmitKeyName ? "" : (opts.DecryptionKeyName != "" ? opts.DecryptionKeyName : opts.KeyName))
+//@   at before call Marshal#0 assert [C01.enc.manifest] deref(arg0, "github.com/dapr/kit/schemes/enc/v1.Manifest").KeyWrappingAlgorithm == kaResolve(opts.Algorithm)
+//@        && deref(arg0, "github.com/dapr/kit/schemes/enc/v1.Manifest").WFK == call_WrapKeyFn_0_wrappedKey
+//@        && deref(arg0, "github.com/dapr/kit/schemes/enc/v1.Manifest").Cipher == cipher && (cipher == "AES-GCM" || cipher == "CHACHA20-POLY1305")
+//@        && deref(arg0, "github.com/dapr/kit/schemes/enc/v1.Manifest").NoncePrefix == call_newFileKey_0_result.noncePrefix && len(call_newFileKey_0_result.noncePrefix) == 7
+//@   at before call SignHeader#0 assert [C01.enc.signarg] arg0 == call_newFileKey_0_result && arg1 == call_Marshal_0_result
+//@   at before go#0 assert [C01.enc.spawn] call_SignHeader_0_result1 == nil && header == call_SignHeader_0_result && outW != nil && outW.cstate == 0 && in != nil
+
+// The producer goroutine of Encrypt: header first, then the segment loop with S = SegmentSize = 65536 and EncryptSegment.
+//@ func Encrypt$1
+//@   tags C01 C02 C07 C08
+//@   requires outW != nil && in != nil && 0 <= in.pos && in.pos <= in.total && outW.cstate == 0
+//@   requires [C08.released.alloc] forall b :: released[b] ==> allocated(b)
+//@   ensures [C08.released.alloc] forall b :: released[b] ==> allocated(b)
+//@   modifies in.pos, outW.pn, outW.cstate, outW.cerr, wlog, wpos, released
+//@   ensures [C02.enc.closed] outW.cstate == 1 || (outW.cstate == 2 && outW.cerr != nil)
+//@   at before call processSegments#0 assert [C01.enc.segsize] arg3 == 65536 && arg0 == in && arg1 == outW
+
+// C02 (1): the consumer goroutine (processSegments with S = 65552 and DecryptSegment) is started only after
+// VerifyHeaderSignature returned nil for exactly the manifest and MAC lines readHeader returned, under the key imported from the
+// unwrapped file key; a missing / failed / wrong-length unwrapped key is replaced by 32 zero bytes and still goes through the MAC
+// check. C01 (f): the key name handed to UnwrapKeyFn is opts.KeyName if set, else the manifest's; neither => ErrDecryptionKeyMissing.
+//@ func Decrypt
+//@   tags C01 C02 C07 C08
+//@   requires in == nil || (0 <= in.pos && in.pos <= in.total)
+//@   requires [C08.released.alloc] forall b :: released[b] ==> allocated(b)
+//@   modifies pos, released
+//@   ensures [C08.released.alloc] result1 != nil ==> (forall b :: released[b] ==> allocated(b))
+//@   ensures [C02.dec.result] (result1 == nil ==> result != nil) && (result1 != nil ==> result == nil)
+//@   ensures [C02.dec.options] (old(in) == nil || opts.UnwrapKeyFn == nil) ==> result1 != nil
+//@   at before call Unmarshal#0 assert [C02.dec.parsearg] arg0 == call_readHeader_0_manifest
+//@   at before call Unmarshal#0 assert [C08.own.use.manifest] !released[call_readHeader_0_manifest.base]
+//@   at before call VerifyHeaderSignature#0 assert [C08.own.use.mac] !released[call_readHeader_0_manifest.base] && !released[call_readHeader_0_mac.base]
+//@   at before call UnwrapKeyFn#0 assert [C01.dec.keyname] arg2 == (opts.KeyName != "" ? opts.KeyName : manifestObj.KeyName) && arg2 != ""
+//@   at before call UnwrapKeyFn#0 assert [C01.dec.unwrapargs] arg0 == manifestObj.WFK && arg1 == manifestObj.KeyWrappingAlgorithm && kaCanon(arg1) && len(arg3) == 0 && len(arg4) == 0
+//@   at before call importFileKey#0 assert [C02.dec.keylen] len(arg0) == 32
+//@        && (len(call_UnwrapKeyFn_0_plaintextKey) == 32 ==> arg0 == call_UnwrapKeyFn_0_plaintextKey)
+//@        && (len(call_UnwrapKeyFn_0_plaintextKey) != 32 ==> (fresh(arg0) && (forall i :: 0 <= i && i < 32 ==> arg0[i] == 0)))
+//@   at before call importFileKey#0 assert [C02.dec.importargs] arg1 == manifestObj.NoncePrefix && len(arg1) == 7 && arg2 == manifestObj.Cipher && (arg2 == "AES-GCM" || arg2 == "CHACHA20-POLY1305")
+//@   at before call VerifyHeaderSignature#0 assert [C02.dec.verifyargs] arg0 == call_importFileKey_0_fk && arg1 == call_readHeader_0_manifest && arg2 == call_readHeader_0_mac
+//@   ghost macok bool
+//@   at call readHeader#0 ghost macok = false
+//@   at call VerifyHeaderSignature#0 ghost macok = (res0 == nil)
+//@   at before go#0 assert [C02.macfirst] macok && call_readHeader_0_err == nil && call_importFileKey_0_err == nil
+//@   at before go#0 assert [C02.dec.spawn] in != nil && 0 <= in.pos && in.pos <= in.total && outW != nil && outW.cstate == 0
